@@ -223,7 +223,10 @@ class SymCase:
         except Exception as e:
             # an exception the contract does not allow: failed obligation on this path
             self.p.ghost["exception"] = f"{type(e).__name__}: {e}"
-            self.p.require("no_exception", False, kind="exc")
+            vc = self.p.require("no_exception", False, kind="exc")
+            vc.note = "raised " + self.p.ghost["exception"] + " at " + \
+                " <- ".join(traceback.format_exc(limit=-4).strip().splitlines()[-7:-1:2])[:300]
+            vc.inputs = dict(self.inputs)
             raise PathEnd("unexpected exception")
         self.results.append(r)
         return r
